@@ -414,19 +414,22 @@ func (t *Topic) maybeEndCallInProgress(from string, msg *ClientComMessage, callD
 	if msgCopy.Pub != nil {
 		origHead = msgCopy.Pub.Head
 	} // else fetch the original message from store and use its head.
-	head := t.currentCall.messageHead(origHead, replaceWith, int(callDuration))
-	if err := t.saveAndBroadcastMessage(&msgCopy, originatorUid, false, nil, head, t.currentCall.content); err != nil {
-		logs.Err.Printf("topic[%s]: failed to write finalizing message for call seq id %d - '%s'", t.name, t.currentCall.seq, err)
+	// The call is over from here on. The broadcasts below may drop a party's session whose send
+	// queue is full; dropping it must not end the call once more from inside the broadcast.
+	call := t.currentCall
+	t.currentCall = nil
+	head := call.messageHead(origHead, replaceWith, int(callDuration))
+	if err := t.saveAndBroadcastMessage(&msgCopy, originatorUid, false, nil, head, call.content); err != nil {
+		logs.Err.Printf("topic[%s]: failed to write finalizing message for call seq id %d - '%s'", t.name, call.seq, err)
 	}
 
 	// Send {info} hangup event to the subscribed sessions.
-	t.broadcastToSessions(t.currentCall.infoMessage(constCallEventHangUp))
+	t.broadcastToSessions(call.infoMessage(constCallEventHangUp))
 
 	// Let all other sessions know the call is over.
 	for tgt := range t.perUser {
-		t.infoCallSubsOffline(from, tgt, constCallEventHangUp, t.currentCall.seq, nil, "", true)
+		t.infoCallSubsOffline(from, tgt, constCallEventHangUp, call.seq, nil, "", true)
 	}
-	t.currentCall = nil
 }
 
 // Server initiated call termination.
